@@ -1,12 +1,22 @@
 //go:build ignore
 
-// c38ast inspects internal/transport/transport.go (go/ast) and reports how
-// StreamIDAllocator.Next accesses the shared counter.  Output: one line
+// c38ast follows the real allocation path of stream ids on the AST (go/ast, no type checking):
 //
-//	shape=<single-atomic-add|locked|cas-loop|load-store|unknown> field=<name> type=<type> detail=<…>
+//	peer.Connection.NextStreamID  ->  transport.StreamIDAllocator.Next  ->  one atomic Add on a counter
+//	                                                                        initialised at construction
 //
-// `load-store` (separate atomic Load and Store, or plain reads/writes, without a lock or CAS) is the
-// only shape reported as NOT atomic; `unknown` is left to the behavioural checks.
+// usage: go run c38ast.go <repo root>
+//
+// It collects the atomic-typed fields of transport.StreamIDAllocator, plus any atomic-typed field of
+// peer.Connection that NextStreamID touches directly, and lists EVERY method call on such a field in
+// the non-test files of both packages.  Allowed: Load anywhere; Store inside a constructor (a plain
+// function that builds the owning struct); exactly one Add(<positive integer literal>) inside the
+// allocating method (Next / NextStreamID); a CompareAndSwap loop inside the allocating method is left
+// to the behavioural checks.  Anything else — Store/Swap/CompareAndSwap/Add elsewhere, an Add with
+// another delta, a second write in the allocating method — is a violation.
+//
+// Output, one line:  shape=<ok|violation|unknown> path=<delegates|own-counter|unknown> add=<delta> violations=<a;b;…>
+// `unknown` (structure not recognised) is not an alarm.
 package main
 
 import (
@@ -17,97 +27,256 @@ import (
 	"go/printer"
 	"go/token"
 	"os"
+	"path/filepath"
+	"sort"
+	"strings"
 )
 
-func main() {
-	fset := token.NewFileSet()
-	f, err := parser.ParseFile(fset, os.Args[1]+".go", nil, 0) // path given without ".go" (go run would take it for a source file)
-	if err != nil {
-		fmt.Println("shape=unknown detail=parse-error")
-		return
-	}
-	src := func(n ast.Node) string {
-		var b bytes.Buffer
-		printer.Fprint(&b, fset, n)
-		return b.String()
-	}
-	fieldTypes := map[string]string{}
-	ast.Inspect(f, func(n ast.Node) bool {
-		ts, ok := n.(*ast.TypeSpec)
-		if !ok || ts.Name.Name != "StreamIDAllocator" {
-			return true
+var fset = token.NewFileSet()
+
+func src(n ast.Node) string {
+	var b bytes.Buffer
+	printer.Fprint(&b, fset, n)
+	return strings.Join(strings.Fields(b.String()), " ")
+}
+
+type pkgInfo struct {
+	files []*ast.File
+}
+
+func load(dir string) *pkgInfo {
+	p := &pkgInfo{}
+	names, _ := filepath.Glob(filepath.Join(dir, "*.go"))
+	sort.Strings(names)
+	for _, n := range names {
+		if strings.HasSuffix(n, "_test.go") || strings.Contains(filepath.Base(n), "zz_verif") {
+			continue
 		}
-		if st, ok := ts.Type.(*ast.StructType); ok {
-			for _, fl := range st.Fields.List {
-				for _, nm := range fl.Names {
-					fieldTypes[nm.Name] = src(fl.Type)
+		f, err := parser.ParseFile(fset, n, nil, 0)
+		if err == nil {
+			p.files = append(p.files, f)
+		}
+	}
+	return p
+}
+
+// structFields returns field name -> type text of a named struct.
+func (p *pkgInfo) structFields(name string) map[string]string {
+	out := map[string]string{}
+	for _, f := range p.files {
+		ast.Inspect(f, func(n ast.Node) bool {
+			ts, ok := n.(*ast.TypeSpec)
+			if !ok || ts.Name.Name != name {
+				return true
+			}
+			if st, ok := ts.Type.(*ast.StructType); ok {
+				for _, fl := range st.Fields.List {
+					for _, nm := range fl.Names {
+						out[nm.Name] = src(fl.Type)
+					}
 				}
 			}
+			return false
+		})
+	}
+	return out
+}
+
+func (p *pkgInfo) funcs() []*ast.FuncDecl {
+	var out []*ast.FuncDecl
+	for _, f := range p.files {
+		for _, d := range f.Decls {
+			if fd, ok := d.(*ast.FuncDecl); ok && fd.Body != nil {
+				out = append(out, fd)
+			}
 		}
-		return false
+	}
+	return out
+}
+
+func recvType(fd *ast.FuncDecl) string {
+	if fd.Recv == nil || len(fd.Recv.List) != 1 {
+		return ""
+	}
+	return strings.TrimPrefix(src(fd.Recv.List[0].Type), "*")
+}
+
+// buildsStruct: does the function contain a composite literal of the named struct type?
+func buildsStruct(fd *ast.FuncDecl, name string) bool {
+	found := false
+	ast.Inspect(fd.Body, func(n ast.Node) bool {
+		if cl, ok := n.(*ast.CompositeLit); ok && cl.Type != nil && src(cl.Type) == name {
+			found = true
+		}
+		return true
 	})
-	for _, d := range f.Decls {
-		fd, ok := d.(*ast.FuncDecl)
-		if !ok || fd.Name.Name != "Next" || fd.Recv == nil || len(fd.Recv.List) != 1 {
-			continue
-		}
-		if src(fd.Recv.List[0].Type) != "*StreamIDAllocator" {
-			continue
-		}
-		recv := fd.Recv.List[0].Names[0].Name
-		calls := map[string]int{} // method called on recv.<field>
-		plain := 0                // recv.<field> used other than as the receiver of a method call
-		field := ""
-		lock := false
-		methodRecv := map[ast.Node]bool{}
-		ast.Inspect(fd.Body, func(n ast.Node) bool {
-			if ce, ok := n.(*ast.CallExpr); ok {
-				if se, ok := ce.Fun.(*ast.SelectorExpr); ok {
-					if inner, ok := se.X.(*ast.SelectorExpr); ok {
-						if id, ok := inner.X.(*ast.Ident); ok && id.Name == recv {
-							if se.Sel.Name == "Lock" || se.Sel.Name == "RLock" {
-								lock = true
-							} else if se.Sel.Name != "Unlock" && se.Sel.Name != "RUnlock" {
-								calls[se.Sel.Name]++
-								field = inner.Sel.Name
-							}
-							methodRecv[inner] = true
-						}
-					}
-				}
-			}
+	return found
+}
+
+type fieldCall struct {
+	field, method string
+	call          *ast.CallExpr
+}
+
+// fieldCalls: calls of the form <expr>.<field>.<method>(…) with field in the given set.
+func fieldCalls(body ast.Node, fields map[string]bool) []fieldCall {
+	var out []fieldCall
+	ast.Inspect(body, func(n ast.Node) bool {
+		ce, ok := n.(*ast.CallExpr)
+		if !ok {
 			return true
-		})
-		ast.Inspect(fd.Body, func(n ast.Node) bool {
-			if se, ok := n.(*ast.SelectorExpr); ok && !methodRecv[se] {
-				if id, ok := se.X.(*ast.Ident); ok && id.Name == recv && se.Sel.Name != "isDialer" {
-					if _, isFunc := fieldTypes[se.Sel.Name]; isFunc {
-						plain++
-						if field == "" {
-							field = se.Sel.Name
-						}
-					}
-				}
-			}
+		}
+		se, ok := ce.Fun.(*ast.SelectorExpr)
+		if !ok {
 			return true
-		})
-		total := 0
-		for _, c := range calls {
-			total += c
 		}
-		shape := "unknown"
-		switch {
-		case lock:
-			shape = "locked"
-		case calls["CompareAndSwap"] > 0:
-			shape = "cas-loop"
-		case total == 1 && calls["Add"] == 1 && plain == 0:
-			shape = "single-atomic-add"
-		case (calls["Load"] > 0 && calls["Store"] > 0) || plain > 1:
-			shape = "load-store"
+		inner, ok := se.X.(*ast.SelectorExpr)
+		if !ok || !fields[inner.Sel.Name] {
+			return true
 		}
-		fmt.Printf("shape=%s field=%s type=%s detail=%q\n", shape, field, fieldTypes[field], src(fd.Body))
-		return
+		out = append(out, fieldCall{inner.Sel.Name, se.Sel.Name, ce})
+		return true
+	})
+	return out
+}
+
+func isAtomic(t string) bool { return strings.HasPrefix(t, "atomic.") }
+
+func positiveLiteral(e ast.Expr) (string, bool) {
+	if bl, ok := e.(*ast.BasicLit); ok && bl.Kind == token.INT && bl.Value != "0" {
+		return bl.Value, true
 	}
-	fmt.Println("shape=unknown detail=no-Next-method")
+	return "", false
+}
+
+func main() {
+	root := os.Args[1]
+	tr := load(filepath.Join(root, "internal/transport"))
+	pe := load(filepath.Join(root, "internal/peer"))
+
+	var violations []string
+	path, addDelta := "unknown", ""
+	recognised := true
+
+	// counter fields of the allocator
+	allocFields := tr.structFields("StreamIDAllocator")
+	trCounters := map[string]bool{}
+	for f, t := range allocFields {
+		if isAtomic(t) {
+			trCounters[f] = true
+		}
+	}
+	if len(trCounters) == 0 {
+		recognised = false
+	}
+
+	// the call path: Connection.NextStreamID
+	connFields := pe.structFields("Connection")
+	peCounters := map[string]bool{}
+	allocFieldOfConn := map[string]bool{}
+	for f, t := range connFields {
+		if strings.Contains(t, "StreamIDAllocator") {
+			allocFieldOfConn[f] = true
+		}
+	}
+	var nextSID *ast.FuncDecl
+	for _, fd := range pe.funcs() {
+		if fd.Name.Name == "NextStreamID" && recvType(fd) == "Connection" {
+			nextSID = fd
+		}
+	}
+	if nextSID == nil {
+		recognised = false
+	} else {
+		atomicOfConn := map[string]bool{}
+		for f, t := range connFields {
+			if isAtomic(t) {
+				atomicOfConn[f] = true
+			}
+		}
+		own := fieldCalls(nextSID.Body, atomicOfConn)
+		del := fieldCalls(nextSID.Body, allocFieldOfConn)
+		for _, c := range own {
+			peCounters[c.field] = true
+		}
+		switch {
+		case len(own) == 0 && len(del) == 1 && del[0].method == "Next":
+			path = "delegates"
+		case len(own) > 0 && len(del) == 0:
+			path = "own-counter"
+		case len(own) == 0 && len(del) == 0:
+			recognised = false
+		default:
+			path = "mixed"
+			violations = append(violations, "peer.Connection.NextStreamID mixes "+src(nextSID.Body))
+		}
+		for _, c := range del {
+			if c.method != "Next" {
+				recognised = false // some other allocator method: not a shape this extractor knows
+			}
+		}
+	}
+
+	// every method call on a counter field, in both packages
+	scan := func(p *pkgInfo, pkg, owner, allocMethod string, counters map[string]bool) {
+		if len(counters) == 0 {
+			return
+		}
+		for _, fd := range p.funcs() {
+			calls := fieldCalls(fd.Body, counters)
+			if len(calls) == 0 {
+				continue
+			}
+			name := fd.Name.Name
+			if rt := recvType(fd); rt != "" {
+				name = rt + "." + name
+			}
+			isCtor := fd.Recv == nil && buildsStruct(fd, owner)
+			isAlloc := recvType(fd) == owner && fd.Name.Name == allocMethod
+			writes := 0
+			for _, c := range calls {
+				what := fmt.Sprintf("%s.%s: %s", pkg, name, src(c.call))
+				switch c.method {
+				case "Load":
+				case "Store":
+					if !isCtor {
+						violations = append(violations, what)
+					}
+				case "Add":
+					writes++
+					if !isAlloc {
+						violations = append(violations, what)
+					} else if len(c.call.Args) != 1 {
+						violations = append(violations, what)
+					} else if v, ok := positiveLiteral(c.call.Args[0]); !ok {
+						violations = append(violations, what)
+					} else {
+						addDelta = v
+					}
+				case "CompareAndSwap":
+					writes++
+					if !isAlloc {
+						violations = append(violations, what)
+					} else {
+						recognised = false // a CAS loop: left to the behavioural checks
+					}
+				default: // Swap, And, Or, …
+					writes++
+					violations = append(violations, what)
+				}
+			}
+			if isAlloc && writes > 1 {
+				violations = append(violations, fmt.Sprintf("%s.%s writes the counter %d times", pkg, name, writes))
+			}
+		}
+	}
+	scan(tr, "transport", "StreamIDAllocator", "Next", trCounters)
+	scan(pe, "peer", "Connection", "NextStreamID", peCounters)
+	shape := "ok"
+	if len(violations) > 0 {
+		shape = "violation"
+	} else if !recognised || (path == "delegates" && addDelta == "") {
+		shape = "unknown"
+	}
+	fmt.Printf("shape=%s path=%s add=%s violations=%s\n", shape, path, addDelta, strings.Join(violations, ";"))
 }
